@@ -1,39 +1,44 @@
 import CffiVerif.Spec.Ieee
+import CffiVerif.Generated.FloatExprs
 
 /-!
 # Model of the float / complex / long double store and read paths (C05)
 
-Mirrors, in `/repo/src/c/_cffi_backend.c`:
+Mirrors, in `/repo/src/c/_cffi_backend.c`, `write_raw_float_data`,
+`read_raw_float_data`, `write_raw_complex_data`, `read_raw_complex_data`,
+`read_raw_longdouble_data`, `write_raw_longdouble_data` and the float branches
+of `convert_to_object`, `convert_from_object`, `do_cast` (with
+`check_bytes_for_float_compatible`).
 
-* `write_raw_float_data(target, double source, size)` – `size == sizeof(float)`:
-  `float r = (float)source; memcpy(target, &r, 4)`; `size == sizeof(double)`:
-  `memcpy` of the 8 bytes; any other size: `Py_FatalError`.
-* `read_raw_float_data(target, size)` – `memcpy` into a `float`/`double`,
-  returned as `double` (the `float` case is the C widening `(double)r`).
-* `write_raw_complex_data` / `read_raw_complex_data` – each part as above at
-  `target + 0` and `target + sizeof(part)`.
-* `read_raw_longdouble_data` / `write_raw_longdouble_data` and the three code
-  paths that special-case `CT_IS_LONGDOUBLE` so that a `long double` never goes
-  through a Python `float`: `convert_to_object` (a read makes a new cdata),
-  `convert_from_object` (a cdata initialiser is copied), `do_cast`.
+Which C types the size dispatch goes through and in which order, the size
+tests, the `memcpy` lengths, the type `(type)source` converts from and `return
+r` converts to, the two halves of a complex, the `CT_IS_LONGDOUBLE` tests and
+the result-code dispatch of `do_cast` are *not* written here: they are the
+definitions of `Generated/FloatExprs.lean`, re-extracted from the C source on
+every check run (`translate/c05_exprs.py`).  The meaning lemmas
+(`Proofs/FloatStore.lean`: `writeRawFloat_eq`, `readRawFloat_eq`, …) state what
+these must amount to; the theorems of `Props/C05.lean` go through them.
 
 A Python `float` is its binary64 bit pattern (`UInt64`); C objects are
-little-endian byte lists.  The two C conversions `(float)d` and `(double)f`
-are `Ieee.narrow` and `Ieee.widen` (the FPU is external: that these *are* what
-the hardware computes is checked by running, `harness/corr_C05.py`).
+little-endian byte lists.  The C conversions `(float)d` and `(double)f` are
+`Ieee.narrow` and `Ieee.widen` (the FPU is external: that these *are* what the
+hardware computes is checked by running, `harness/corr_C05.py`).
 
 `long double` (x87 extended, `sizeof == 16` on x86-64 SysV) is opaque: the
 value is the first 10 bytes; the 6 padding bytes written by a store are
-whatever the C temporary `long double r` held and are a parameter (`junk`).
+whatever the C temporary `long double r` held and are a parameter (`junk`);
+`(long double)value` of a double is a parameter too (`ext`).
 -/
 namespace CffiVerif.FloatStore
-open CffiVerif.Ieee
+open CffiVerif.Ieee CffiVerif.Generated
+open CffiVerif.Generated.FloatExprs (CFloatType Part)
 
 abbrev Bytes := List UInt8
 
 inductive Err where
   | fatalBadSize      -- Py_FatalError("…: bad float size")
   | typeError
+  | unmodelled        -- a conversion involving `long double` arithmetic (the FPU's; no generated dispatch reaches it today)
   deriving Repr, DecidableEq
 
 /-- `n` little-endian bytes of `x`. -/
@@ -56,17 +61,45 @@ def slice (buf : Bytes) (off len : Nat) : Option Bytes :=
 
 /-! ## float and double -/
 
+/-- The C conversion `(dst)x` for `x` of type `src`, on bit patterns. -/
+def cconv (src dst : CFloatType) (bits : Nat) : Option Nat :=
+  match src, dst with
+  | .double, .float => some (narrow (UInt64.ofNat bits)).toNat
+  | .float, .double => some (widen (UInt32.ofNat bits)).toNat
+  | .double, .double => some bits
+  | .float, .float => some bits
+  | _, _ => none
+
+/-- A sequence of `_write_raw_data(type);` followed by `Py_FatalError`. -/
+def writeCases (cases : List CFloatType) (srcTy : CFloatType) (source size : Nat) : Except Err Bytes :=
+  match cases with
+  | [] => .error .fatalBadSize
+  | t :: ts =>
+    if FloatExprs.writeMacroTest size t.sizeof then
+      match cconv srcTy t source with               -- `type r = (type)source;`
+      | some r => .ok (toLE (FloatExprs.writeMacroCopyLen t.sizeof) r)
+      | none => .error .unmodelled
+    else writeCases ts srcTy source size
+
 /-- Object representation written by `write_raw_float_data(_, source, size)`. -/
 def writeRawFloat (source : UInt64) (size : Nat) : Except Err Bytes :=
-  if size = 4 then .ok (toLE 4 (narrow source).toNat)
-  else if size = 8 then .ok (toLE 8 source.toNat)
-  else .error .fatalBadSize
+  writeCases FloatExprs.writeFloatCases FloatExprs.writeFloatSourceType source.toNat size
+
+/-- A sequence of `_read_raw_data(type);` followed by `Py_FatalError`; `target`
+is the object read (exactly the bytes the `memcpy` takes). -/
+def readCases (cases : List CFloatType) (retTy : CFloatType) (target : Bytes) (size : Nat) : Except Err Nat :=
+  match cases with
+  | [] => .error .fatalBadSize
+  | t :: ts =>
+    if FloatExprs.readMacroTest size t.sizeof ∧ target.length = FloatExprs.readMacroCopyLen t.sizeof then
+      match cconv t retTy (ofLE target) with         -- `return r;`
+      | some r => .ok r
+      | none => .error .unmodelled
+    else readCases ts retTy target size
 
 /-- `read_raw_float_data(target, size)`: the double handed to `PyFloat_FromDouble`. -/
 def readRawFloat (target : Bytes) (size : Nat) : Except Err UInt64 :=
-  if size = 4 ∧ target.length = 4 then .ok (widen (UInt32.ofNat (ofLE target)))
-  else if size = 8 ∧ target.length = 8 then .ok (UInt64.ofNat (ofLE target))
-  else .error .fatalBadSize
+  (readCases FloatExprs.readFloatCases FloatExprs.readFloatReturnType target size).map UInt64.ofNat
 
 /-- `check_bytes_for_float_compatible`: a 1-character `bytes`/`str` is cast to
 its ordinal as a double (exact: ordinals are < 2^21). -/
@@ -79,29 +112,74 @@ def natToDouble (n : Nat) : Nat :=
 
 /-! ## complex: two parts, each stored like a float of half the size -/
 
+def pickPart (p : Part) (re im : UInt64) : UInt64 :=
+  match p with
+  | .real => re
+  | .imag => im
+
+/-- The `memcpy`s of one `_write_raw_complex_data(type)`: `(type)source.part`
+copied to `target + o`. -/
+def writeHalves (t : CFloatType) (buf : Bytes) (off : Nat) (re im : UInt64) :
+    List (Part × Nat × Nat) → Except Err (Option Bytes)
+  | [] => .ok (some buf)
+  | (p, o, len) :: rest =>
+    match cconv .double t (pickPart p re im).toNat with   -- members of `Py_complex` are `double`
+    | none => .error .unmodelled
+    | some r =>
+      match blit buf (off + o) (toLE len r) with
+      | none => .ok none
+      | some b => writeHalves t b off re im rest
+
+def writeComplexCases (cases : List CFloatType) (buf : Bytes) (off : Nat) (re im : UInt64) (size : Nat) :
+    Except Err (Option Bytes) :=
+  match cases with
+  | [] => .error .fatalBadSize
+  | t :: ts =>
+    if FloatExprs.cplxWriteTest size t.sizeof then
+      writeHalves t buf off re im (FloatExprs.cplxWriteHalves t.sizeof)
+    else writeComplexCases ts buf off re im size
+
 /-- `write_raw_complex_data(target + off, {re, im}, size)` into `buf`. -/
 def writeRawComplex (buf : Bytes) (off : Nat) (re im : UInt64) (size : Nat) : Except Err (Option Bytes) :=
-  if size = 8 ∨ size = 16 then do
-    let r ← writeRawFloat re (size / 2)
-    let i ← writeRawFloat im (size / 2)
-    -- two memcpy's: target, target + sizeof(type)
-    pure ((blit buf off r).bind fun b => blit b (off + size / 2) i)
-  else .error .fatalBadSize
+  writeComplexCases FloatExprs.cplxWriteCases buf off re im size
 
-/-- `read_raw_complex_data(target + off, size)`. -/
+def setPart (p : Part) (v : UInt64) (r : UInt64 × UInt64) : UInt64 × UInt64 :=
+  match p with
+  | .real => (v, r.2)
+  | .imag => (r.1, v)
+
+/-- The `float` branch of `read_raw_complex_data`: each half is copied into a
+`float` and assigned (widened) to its member of `r`. -/
+def readFloatHalves (buf : Bytes) (off : Nat) (r : UInt64 × UInt64) :
+    List (Part × Nat × Nat) → Except Err (Option (UInt64 × UInt64))
+  | [] => .ok (some r)
+  | (p, o, len) :: rest =>
+    match slice buf (off + o) len with
+    | none => .ok none
+    | some bs =>
+      if len = FloatExprs.sizeofFloat then
+        match cconv .float .double (ofLE bs) with
+        | some v => readFloatHalves buf off (setPart p (UInt64.ofNat v) r) rest
+        | none => .error .unmodelled
+      else .error .fatalBadSize
+
+/-- `read_raw_complex_data(target + off, size)`; `Py_complex r = {0.0, 0.0}`. -/
 def readRawComplex (buf : Bytes) (off size : Nat) : Except Err (Option (UInt64 × UInt64)) :=
-  if size = 8 ∨ size = 16 then
-    match slice buf off (size / 2), slice buf (off + size / 2) (size / 2) with
-    | some r, some i => do
-      let re ← readRawFloat r (size / 2)
-      let im ← readRawFloat i (size / 2)
-      pure (some (re, im))
-    | _, _ => pure none
+  if FloatExprs.cplxReadFloatTest size then
+    readFloatHalves buf off (0, 0) FloatExprs.cplxReadFloatHalves
+  else if FloatExprs.cplxReadDoubleTest size then
+    -- `memcpy(&r, target, 2*sizeof(double))` into `{double real; double imag;}`
+    match slice buf off FloatExprs.cplxReadDoubleCopyLen with
+    | none => .ok none
+    | some bs =>
+      .ok (some (UInt64.ofNat (ofLE (bs.take FloatExprs.sizeofDouble)),
+                 UInt64.ofNat (ofLE (bs.drop FloatExprs.sizeofDouble))))
   else .error .fatalBadSize
 
-/-! ## long double: opaque 16-byte objects, 10 value bytes -/
+/-! ## long double: opaque objects of `sizeof(long double)` bytes, 10 value bytes -/
 
-def ldSize : Nat := 16
+/-- `sizeof(long double)` as used by `read_raw_longdouble_data`. -/
+def ldSize : Nat := FloatExprs.ldReadSize
 def ldValueBytes : Nat := 10
 
 /-- The value held by a `long double` object (x87 80-bit register image). -/
@@ -113,9 +191,9 @@ def readRawLongDouble (target : Bytes) : Option Bytes :=
   if target.length = ldSize then some (ldValue target) else none
 
 /-- `write_raw_longdouble_data(target, source)`: `long double r = source;
-memcpy(target, &r, 16)` – the padding bytes come from the temporary. -/
+memcpy(target, &r, sizeof(long double))` – the padding bytes come from the temporary. -/
 def writeRawLongDouble (value : Bytes) (junk : Bytes) : Bytes :=
-  value ++ (junk ++ List.replicate 6 0).take (ldSize - ldValueBytes)
+  value ++ (junk ++ List.replicate 6 0).take (FloatExprs.ldWriteSize - ldValueBytes)
 
 /-- `convert_to_object(data, long double)`: reading `p[0]` / a field makes a
 new cdata holding a copy. -/
@@ -133,5 +211,94 @@ result cdata. -/
 def ldCast (src : Bytes) (junk1 junk2 : Bytes) : Option Bytes :=
   (ldConvertToObject src junk1).bind fun io =>
     (readRawLongDouble io).map fun v => writeRawLongDouble v junk2
+
+/-! ## the float branches of `convert_to_object`, `convert_from_object`, `do_cast` -/
+
+/-- A Python object handed to a float store path, as far as these paths look at it. -/
+structure FArg where
+  /-- `CData_Check(ob)` -/
+  isCData : Bool
+  /-- `c_type->ct_flags` of a cdata -/
+  flags : Nat
+  /-- the object at `c_data` of a cdata -/
+  data : Bytes
+  /-- `PyFloat_AsDouble(ob)`; `none`: it raised (`TypeError` for a non-number) -/
+  asDouble : Option UInt64
+
+/-- What reading a float-typed item gives: a Python float or a new `long double` cdata. -/
+inductive FObj where
+  | pyfloat (bits : UInt64)
+  | ldcdata (obj : Bytes)
+  deriving Repr
+
+def ofOpt {α} : Option α → Except Err α
+  | some x => .ok x
+  | none => .error .fatalBadSize
+
+/-- `convert_to_object(data, ct)` for `ct->ct_flags & CT_PRIMITIVE_FLOAT`. -/
+def convertToObjectFloat (ctflags ctsize : Nat) (data junk : Bytes) : Except Err FObj :=
+  if FloatExprs.toObjectViaDouble ctflags then (readRawFloat data ctsize).map .pyfloat
+  else (ofOpt (ldConvertToObject data junk)).map .ldcdata
+
+/-- `convert_from_object(data, ct, init)` for `ct->ct_flags & CT_PRIMITIVE_FLOAT`;
+`ext` is the FPU's `(long double)value`. -/
+def convertFromObjectFloat (ctflags ctsize : Nat) (init : FArg) (ext : UInt64 → Bytes) (junk : Bytes) :
+    Except Err Bytes :=
+  if FloatExprs.fromObjectCopiesLongDouble ctflags init.isCData init.flags then
+    ofOpt (ldConvertFromObject init.data junk)
+  else
+    match init.asDouble with
+    | none => .error .typeError
+    | some v =>
+      if FloatExprs.fromObjectViaFloatStore ctflags then writeRawFloat v ctsize
+      else .ok (writeRawLongDouble (ext v) junk)
+
+/-- The argument of `ffi.cast(<float type>, ob)` after `io` has been computed:
+`convert_to_object` of a primitive cdata source, or `ob` itself. -/
+inductive CastArg where
+  /-- `bytes` of length `len` whose first byte is `ord` -/
+  | bytes (len ord : Nat)
+  /-- `str`; `single`: it is one character, of code point `ord` -/
+  | str (single : Bool) (ord : Nat)
+  /-- anything else -/
+  | other (a : FArg)
+
+/-- `check_bytes_for_float_compatible(io, &value)`: result code and value. -/
+def checkBytesForFloat : CastArg → Int × Option UInt64
+  | .bytes len ord =>
+    if FloatExprs.cbfBytesLenBad len then (FloatExprs.cbfError, none)
+    else (FloatExprs.cbfGotValue, some (UInt64.ofNat (natToDouble ord)))
+  | .str single ord =>
+    if single then (FloatExprs.cbfGotValue, some (UInt64.ofNat (natToDouble ord))) else (FloatExprs.cbfError, none)
+  | .other _ => (FloatExprs.cbfNoValue, none)
+
+/-- `do_cast(ct, ob)` for `ct->ct_flags & CT_PRIMITIVE_FLOAT`, from the call of
+`check_bytes_for_float_compatible` on (`srcIsCData`: `ob` is a cdata with flags
+`srcflags`, and `io` is its conversion). -/
+def castToFloat (ctflags ctsize : Nat) (srcIsCData : Bool) (srcflags : Nat) (io : CastArg)
+    (ext : UInt64 → Bytes) (junk : Bytes) : Except Err Bytes :=
+  if srcIsCData && FloatExprs.castSourceRejected srcflags then .error .typeError
+  else
+    let (res, value) := checkBytesForFloat io
+    if FloatExprs.castResCannot res then .error .typeError
+    else
+      let store (v : UInt64) : Except Err Bytes :=
+        if FloatExprs.castViaFloatStore ctflags then writeRawFloat v ctsize
+        else .ok (writeRawLongDouble (ext v) junk)
+      if FloatExprs.castResNoValue res then
+        match io with
+        | .other a =>
+          if FloatExprs.castCopiesLongDouble ctflags a.isCData a.flags then
+            -- `io` is already the copy made by `convert_to_object`
+            ofOpt ((readRawLongDouble a.data).map fun v => writeRawLongDouble v junk)
+          else
+            match a.asDouble with
+            | none => .error .typeError
+            | some v => store v
+        | _ => .error .typeError      -- unreachable: bytes/str never report "no value"
+      else
+        match value with
+        | some v => store v
+        | none => .error .typeError   -- unreachable: a reported value is present
 
 end CffiVerif.FloatStore
